@@ -785,7 +785,21 @@ def make_hashlib_module():
 
 
 def m_struct_unpack(fmt, data):
+    if isinstance(data, list) and any(is_sym(x) for x in data):
+        if fmt == ">i" and len(data) == 4:
+            bs = [z3.Extract(7, 0, core.tobv(x)) for x in data]
+            return (SBV(z3.SignExt(core.BVW - 32, z3.Concat(*bs))),)
+        if fmt == ">i":
+            raise _struct.error("unpack requires a buffer of 4 bytes")
+        raise Undecided("struct.unpack on symbolic list")
     if isinstance(data, Rope) and data.concrete() is None:
+        if fmt == ">i" and _cval(data.length_term()) == 4:
+            # big-endian signed 32-bit
+            bs = [z3.Extract(7, 0, z3.Int2BV(data.byte_at(j), core.BVW)) for j in range(4)]
+            w = z3.Concat(*bs)
+            return (SBV(z3.SignExt(core.BVW - 32, w)),)
+        if fmt == ">i":
+            raise _struct.error("unpack requires a buffer of 4 bytes")
         raise Undecided("struct.unpack on symbolic bytes (format %s)" % fmt)
     if isinstance(data, Rope):
         data = data.concrete()
